@@ -82,6 +82,16 @@ CLAIMED = {
             "Trusted: rustc nightly MIR; release-profile wrap-around semantics; lengths <= isize::MAX; the "
             "documented messages transcribed in rules/c05.py::DOCUMENTED.",
             "DESIGN.md §4 C05"),
+    "C16": ("field-use analysis (write-only fields), reachability/dominance in the runner loop, decision tables of the "
+            "verdict mapping and the filter predicate (constant propagation over the closure's MIR)",
+            "Decides: the test selection given to the code generator is actually consumed (today it is write-only: "
+            "reproduced, every test passes vacuously); @skip tests cannot reach run_single_test; the raw->reported "
+            "verdict mapping and counters are the documented ones; Err(FAILURE) iff failed>0 or xpassed>0; the "
+            "-k/--slow predicate table (16 cells) is exactly the documented one; Passed only under "
+            "status.success(). The verdict for arbitrary test files (needs cargo) is not decided.",
+            "Trusted: rustc nightly MIR; cargo's exit status; the modelling of str::contains / slice::contains as "
+            "free booleans in the filter table.",
+            "DESIGN.md §4 C16"),
 }
 
 NOT_APPLICABLE = {
